@@ -91,6 +91,10 @@ def identities(ctx, obj, T, units, label, elemental):
             if not close(Cp, CpoR * R):
                 ctx.fail('Cp-not-CpoR*R', '[%s] get_Cp(%r, %r) = %r, CpoR*R = %r' % (label, T, u, Cp, CpoR * R))
         if elemental is not None:
+            Sf, Gf = quiet(obj.get_S, T, u, S_elements=False), quiet(obj.get_G, T, hu, S_elements=False)
+            if Sf != S or Gf != G:
+                ctx.fail('elemental-flag-False-changes-the-value', '[%s] get_S(%r, %r) = %r but with S_elements=False %r; get_G %r vs %r'
+                         % (label, T, u, S, Sf, G, Gf))
             Se = quiet(obj.get_S, T, u, S_elements=True)
             Ge = quiet(obj.get_G, T, hu, S_elements=True)
             if not close(Se, (SoR - elemental) * R, 1e-11):
@@ -174,6 +178,13 @@ def check_estimate(ctx, case):
             ctx.case(nontrivial=len(counts) >= 2, key=[label, 'elemental', T],
                      sample=dict(object=label, formula={str(k): v for k, v in counts.items()}, S_elements_sum=elemental))
             ctx.event('elemental:checked')
+            # declining the elemental reference explicitly is the same request as not mentioning it
+            for flag in (False, None, 0):
+                Sf, Gf = quiet(est.get_SoR, T, S_elements=flag), quiet(est.get_GoRT, T, S_elements=flag)
+                if Sf != S0 or Gf != G0:
+                    ctx.fail('elemental-flag-%r-changes-the-value' % (flag,), '[%s] SoR(T)=%r, SoR(T, S_elements=%r)=%r; GoRT(T)=%r, GoRT(T, S_elements=%r)=%r'
+                             % (label, S0, flag, Sf, G0, flag, Gf))
+                    break
             if not close(S0 - S1, elemental, 1e-10):
                 ctx.fail('elemental-sum', '[%s] SoR(T) - SoR(T, True) = %r, sum over formula %s of elemental entropies = %r'
                          % (label, S0 - S1, counts, elemental))
